@@ -44,31 +44,73 @@ theorem C03_counter_alloc (c : Cfg) (s s' : SchedSt) (r : Req) (h : tryAllocatio
         | none => rw [hc] at h; simp at h
         | some ns => rw [hc] at h; simp only [Prod.mk.injEq] at h; rw [← h.2]
 
-theorem C03_counter_release (s : SchedSt) (uids : List Nat) (h : uids ≠ []) :
-    (unscheduleCompleted s uids).1.activeCnt = s.activeCnt - uids.length := by
+theorem C03_counter_release (s : SchedSt) (msgs : List (List Nat)) :
+    (unscheduleCompleted s msgs).1.activeCnt
+      = s.activeCnt - (drainUnsched (s.unschedQ ++ msgs) []).1.length
+    ∧ (unscheduleCompleted s msgs).1.unschedQ = (drainUnsched (s.unschedQ ++ msgs) []).2 := by
   unfold unscheduleCompleted
-  rw [if_neg h]
+  rcases hd : drainUnsched (s.unschedQ ++ msgs) [] with ⟨uids, rest⟩
   simp only
-  generalize hs0 : ({ s with activeCnt := s.activeCnt - uids.length } : SchedSt) = s0
-  have h0 : s0.activeCnt = s.activeCnt - uids.length := by rw [← hs0]
-  rw [← h0]
-  clear hs0 h0
-  induction uids generalizing s0 with
-  | nil => rfl
-  | cons u us ih =>
-    simp only [foldl_cons]
-    have hstep : ∀ (acc : SchedSt), (match acc.given.find? (fun (e : Nat × List Slot) => e.1 = u) with
-        | none => acc
-        | some e => match changeSlotStates acc.nodes e.2 false with
-          | none => acc
-          | some ns => { acc with nodes := ns }).activeCnt = acc.activeCnt := by
-      intro acc
-      split
-      · rfl
-      · split <;> rfl
-    by_cases hus : us = []
-    · subst hus; simp only [foldl_nil]; exact hstep s0
-    · rw [ih hus]; exact hstep s0
+  by_cases h : uids = []
+  · rw [if_pos h]; subst h; simp
+  · rw [if_neg h]
+    simp only
+    have key : ∀ (l : List Nat) (s0 : SchedSt),
+        (l.foldl (fun (acc : SchedSt) uid =>
+          match acc.given.find? (fun (e : Nat × List Slot) => e.1 = uid) with
+          | none   => acc
+          | some e =>
+            match changeSlotStates acc.nodes e.2 false with
+            | none    => acc
+            | some ns => { acc with nodes := ns }) s0).activeCnt = s0.activeCnt
+        ∧ (l.foldl (fun (acc : SchedSt) uid =>
+          match acc.given.find? (fun (e : Nat × List Slot) => e.1 = uid) with
+          | none   => acc
+          | some e =>
+            match changeSlotStates acc.nodes e.2 false with
+            | none    => acc
+            | some ns => { acc with nodes := ns }) s0).unschedQ = s0.unschedQ := by
+      intro l
+      induction l with
+      | nil => intro s0; exact ⟨rfl, rfl⟩
+      | cons u us ih =>
+        intro s0
+        simp only [foldl_cons]
+        have hstep : ∀ (acc : SchedSt), (match acc.given.find? (fun (e : Nat × List Slot) => e.1 = u) with
+            | none => acc
+            | some e => match changeSlotStates acc.nodes e.2 false with
+              | none => acc
+              | some ns => { acc with nodes := ns }).activeCnt = acc.activeCnt
+            ∧ (match acc.given.find? (fun (e : Nat × List Slot) => e.1 = u) with
+            | none => acc
+            | some e => match changeSlotStates acc.nodes e.2 false with
+              | none => acc
+              | some ns => { acc with nodes := ns }).unschedQ = acc.unschedQ := by
+          intro acc
+          split
+          · exact ⟨rfl, rfl⟩
+          · split <;> exact ⟨rfl, rfl⟩
+        have ⟨c, d⟩ := hstep s0
+        have ⟨a, b⟩ := ih (match s0.given.find? (fun (e : Nat × List Slot) => e.1 = u) with
+            | none => s0
+            | some e => match changeSlotStates s0.nodes e.2 false with
+              | none => s0
+              | some ns => { s0 with nodes := ns })
+        exact ⟨by rw [a, c], by rw [b, d]⟩
+    have ⟨a, b⟩ := key uids { s with activeCnt := s.activeCnt - uids.length, unschedQ := rest }
+    exact ⟨a, b⟩
+
+/-- **no release message is lost by the bulk limit**: draining takes messages off the
+    queue in order; every message is either processed now or stays queued -/
+theorem C03_drain_lossless (q : List (List Nat)) (acc : List Nat) :
+    (drainUnsched q acc).1 ++ (drainUnsched q acc).2.flatten = acc ++ q.flatten := by
+  induction q generalizing acc with
+  | nil => simp [drainUnsched]
+  | cons m ms ih =>
+    unfold drainUnsched
+    split
+    · simp
+    · rw [ih]; simp
 
 /-- FULL statement over all histories is FALSE on the current code for
     application-placed tasks (finding F3): they are released but were never
@@ -78,7 +120,7 @@ theorem C03_app_slots_witness :
         { nodes := [{ index := 0, cores := [.free], gpus := [], lfs := 0, mem := 0 }] } true
         [{ incoming := [.sched [{ uid := 0, ranks := 1, cpr := 1, gpr := 0, lfs := 0, mem := 0,
                                    app := some [{ node := 0, cores := [0], gpus := [], lfs := 0, mem := 0 }] }]],
-           unsched := [0] }] []).1.activeCnt = -1 := by
+           unsched := [[0]] }] []).1.activeCnt = -1 := by
   decide
 
 end RPVerif.C03
